@@ -7,6 +7,7 @@ import (
 	"context"
 	"errors"
 	"fmt"
+	"io"
 	"math/rand"
 	"sort"
 	"sync"
@@ -51,6 +52,11 @@ type Cfg struct {
 	PlanKind  string
 	Procs     int
 	Entries   []int // allowed entry points (nil = all)
+	// Closer: 0 = the channel stays open; 1 = Close(err) from a user goroutine
+	// once all (early) writers returned; 2 = Close from a handler on the read loop.
+	Closer int
+	// LateWriters start writing at the moment Close is invoked (ids Writers..).
+	LateWriters int
 }
 
 func (c Cfg) String() string {
@@ -69,6 +75,29 @@ type History struct {
 	// (their records are then incomplete and the history must not be judged).
 	WritersDone bool
 	Rig         *mon.Rig
+	// close bookkeeping (Closer != 0)
+	CloseCall, CloseRet uint64
+	CloseWallCall       time.Time
+	CloseErr            error
+}
+
+// ErrTrialClose is the error trials close their channel with.
+var ErrTrialClose = errors.New("trial close")
+
+// closeOnRead closes the channel from the read loop when a byte arrives.
+type closeOnRead struct {
+	h *History
+}
+
+func (c *closeOnRead) HandleRead(ctx netty.InboundContext, message netty.Message) {
+	var b [1]byte
+	if _, err := message.(io.Reader).Read(b[:]); err != nil {
+		panic(err)
+	}
+	c.h.CloseWallCall = time.Now()
+	c.h.CloseCall = mon.Tick()
+	ctx.Close(ErrTrialClose)
+	c.h.CloseRet = mon.Tick()
 }
 
 // Viol is a violated predicate with its classification key (without property prefix).
@@ -127,8 +156,14 @@ func Scribble(b []byte) {
 // harness waits for logical quiescence (every sender action handed to the
 // executor has returned) and snapshots the logs.
 func Run(cfg Cfg, rng *rand.Rand, watchdog time.Duration) *History {
-	rig := mon.NewRig(mon.RigOpts{Mode: cfg.Mode, Queue: cfg.Queue, Plan: cfg.Plan, QuietTail: true})
-	h := &History{Cfg: cfg, Rig: rig, Writes: make([][]WriteRec, cfg.Writers)}
+	h := &History{Cfg: cfg, Writes: make([][]WriteRec, cfg.Writers+cfg.LateWriters)}
+	opts := mon.RigOpts{Mode: cfg.Mode, Queue: cfg.Queue, Plan: cfg.Plan, QuietTail: true}
+	if cfg.Closer == 2 {
+		opts.NoPark = true
+		opts.Handlers = []netty.Handler{&closeOnRead{h}}
+	}
+	rig := mon.NewRig(opts)
+	h.Rig = rig
 	var wg sync.WaitGroup
 	for w := 0; w < cfg.Writers; w++ {
 		wg.Add(1)
@@ -154,8 +189,54 @@ func Run(cfg Cfg, rng *rand.Rand, watchdog time.Duration) *History {
 	}
 	h.WritersDone = true
 	rig.S.Mark("allret")
-	// logical quiescence: only the read loop (action #0) may be outstanding.
-	h.Quiesced = rig.Ex.WaitOutstanding(1, watchdog)
+	outstanding := 1
+	if cfg.Closer != 0 {
+		outstanding = 0
+		var lw sync.WaitGroup
+		for w := cfg.Writers; w < cfg.Writers+cfg.LateWriters; w++ {
+			lw.Add(1)
+			wr := rand.New(rand.NewSource(rng.Int63()))
+			go func(w int, wr *rand.Rand) {
+				defer lw.Done()
+				h.Writes[w] = writer(rig, cfg, w, wr)
+			}(w, wr)
+		}
+		closed := make(chan struct{})
+		switch cfg.Closer {
+		case 1:
+			go func() {
+				defer close(closed)
+				h.CloseWallCall = time.Now()
+				h.CloseCall = mon.Tick()
+				rig.S.Mark("closeCall")
+				rig.Ch.Close(ErrTrialClose)
+				h.CloseRet = mon.Tick()
+			}()
+		case 2:
+			rig.T.FeedBytes([]byte{'!'})
+			go func() {
+				defer close(closed)
+				<-rig.T.Closed()
+			}()
+		}
+		lwDone := make(chan struct{})
+		go func() { lw.Wait(); <-closed; close(lwDone) }()
+		select {
+		case <-lwDone:
+		case <-time.After(watchdog):
+			rig.S.ReleaseAll()
+			select {
+			case <-lwDone:
+			case <-time.After(watchdog):
+				h.WritersDone = false
+				h.Ops, h.Wire = rig.T.Snapshot()
+				return h
+			}
+		}
+	}
+	// logical quiescence: only the read loop (action #0) may be outstanding
+	// (nothing at all once the channel was closed).
+	h.Quiesced = rig.Ex.WaitOutstanding(outstanding, watchdog)
 	h.Ops, h.Wire = rig.T.Snapshot()
 	h.Unflush = rig.T.Unflushed()
 	return h
@@ -186,7 +267,7 @@ func writer(rig *mon.Rig, cfg Cfg, w int, rng *rand.Rand) []WriteRec {
 		Scribble(p)
 		rec.N = n
 		if err != nil {
-			rec.Err = err.Error()
+			rec.Err = SafeErr(err)
 			rec.NoSpace = errors.Is(err, netty.ErrAsyncNoSpace)
 		} else {
 			rec.OK = true
@@ -416,4 +497,80 @@ func Summary(h *History, maxWrites int) map[string]interface{} {
 		m["marks"] = h.Rig.S.LogString(60)
 	}
 	return m
+}
+
+// CheckC06 judges graceful close: every payload whose call returned success
+// before Close was invoked must be on the wire and flushed when the transport
+// is closed, and the transport must not be closed during a Writev.
+func CheckC06(h *History, recs []WireRec) (viols []Viol, pre int, judged bool) {
+	ci := -1
+	for i, o := range h.Ops {
+		if o.Kind == mon.OpClose {
+			ci = i
+			break
+		}
+	}
+	if ci < 0 || h.CloseCall == 0 {
+		return nil, 0, false
+	}
+	onWire := map[[2]int]*WireRec{}
+	for i := range recs {
+		onWire[[2]int{recs[i].W, recs[i].Seq}] = &recs[i]
+	}
+	opIndex := func(op *mon.Op) int {
+		for i := range h.Ops {
+			if &h.Ops[i] == op {
+				return i
+			}
+		}
+		return -1
+	}
+	lastOp := -1
+	for w := range h.Writes {
+		for i := range h.Writes[w] {
+			c := &h.Writes[w][i]
+			if !c.OK || c.Size == 0 || c.Ret >= h.CloseCall {
+				continue
+			}
+			pre++
+			r := onWire[[2]int{c.W, c.Seq}]
+			if r == nil {
+				if len(viols) < 3 {
+					viols = append(viols, Viol{"accepted-before-close-lost", fmt.Sprintf("payload w=%d seq=%d size=%d via %s returned success at tick %d, before Close was invoked (tick %d), but was not handed to the transport before it was closed; ops=%s",
+						c.W, c.Seq, c.Size, EntryName[c.Entry], c.Ret, h.CloseCall, tailOps(h.Ops))})
+				}
+				continue
+			}
+			if j := opIndex(r.Op); j > lastOp {
+				lastOp = j
+			}
+		}
+	}
+	if h.Ops[ci].InWrite != 0 {
+		viols = append(viols, Viol{"transport-closed-during-writev", fmt.Sprintf("the transport was closed while %d Writev call(s) were in progress; ops=%s", h.Ops[ci].InWrite, tailOps(h.Ops))})
+	}
+	if lastOp >= 0 && len(viols) == 0 {
+		flushed := false
+		for j := lastOp + 1; j < ci; j++ {
+			if h.Ops[j].Kind == mon.OpFlush && !h.Ops[j].Rejected {
+				flushed = true
+			}
+		}
+		if !flushed {
+			viols = append(viols, Viol{"not-flushed-before-close", fmt.Sprintf("payloads accepted before Close were written but not flushed before the transport was closed; ops=%s", tailOps(h.Ops))})
+		}
+	}
+	return viols, pre, true
+}
+
+// SafeErr renders an error without trusting it: an unsynchronised read of the
+// channel's close error (a C12 matter) can hand the caller a torn interface
+// value whose Error method faults.
+func SafeErr(err error) (s string) {
+	defer func() {
+		if r := recover(); r != nil {
+			s = fmt.Sprintf("<torn error value: %v>", r)
+		}
+	}()
+	return err.Error()
 }
